@@ -24,7 +24,7 @@ def run(db, rep, feat, tier):
         "dominance of the `offset + 4 > len` test over the byte accesses; accumulate-then-shift (big) versus "
         "shift-the-new-byte (little) shape of get(); the empty-region early return dominating all section updates; "
         "the two comparisons of section_address. Non-overlap after set_memory is not decided.")
-    for f in ("get8", "get", "get32", "set32", "permissions", "set_memory", "section_address"):
+    for f in ("get8", "get", "get32", "set32", "permissions", "set_memory"):
         rep.anchor("%s::%s" % (M, f) in db.mir, "%s::%s" % (M, f))
     r3ok = r3(db, rep)
     r2(db, rep)
@@ -246,21 +246,56 @@ def r5(db, rep):
 
 
 # ------------------------------------------------------------------------------------------------ R6
+def locator(db):
+    """The private function that finds the section containing an address: the one function of the module that ranges over the
+    section map."""
+    fs = [k for k in db.mir.keys() if k.startswith(M + "::") and "::{closure#" not in k and
+          any((mir_callee(t) or "").endswith("BTreeMap::<K, V, A>::range") for i, t in mir_calls(db.mir[k]))]
+    return fs[0] if len(fs) == 1 else None
+
+
+def locators(db):
+    """The lookup and the private functions whose result is derived from it (e.g. (start, offset) pairs)."""
+    base = locator(db)
+    out = {base} if base else set()
+    changed = True
+    while changed:
+        changed = False
+        for k in db.mir.keys():
+            if k in out or not k.startswith(M + "::") or "::{closure#" in k:
+                continue
+            h = db.hir.get(k)
+            if h is None or h.get("vis") == "Public":
+                continue
+            tm_ = terms_of(db, k, _TERMS)
+            if any(c[1] in out for c in calls_in(tm_.local(0))):
+                out.add(k)
+                changed = True
+    return out
+
+
 def r6(db, rep):
     r = rep.rule("R6", "K4", "section_address: the candidate is the greatest section start <= address (range up to and "
                  "including address, next_back) and it covers address iff start <= address < start + len")
-    body = db.mir[M + "::section_address"]
-    hb = db.hir[M + "::section_address"]
+    loc = locator(db)
+    rep.anchor(loc is not None, "the section lookup of the backing memory (the function that ranges over the section map)")
+    body = db.mir[loc]
+    hb = db.hir[loc]
     rep.analysed(body["def"])
-    tm = Terms(body, db)
     atoms = set()
-    for i, b in enumerate(body["blocks"]):
-        t = b["t"]
-        if t["k"] != "SwitchInt":
+    # every ordering comparison of the lookup, in its body or in a closure it passes to an adaptor (filter / map ...)
+    comps = []
+    for cdef in [loc] + list(db.closures_of(loc)):
+        cb = db.mir.get(cdef)
+        if cb is None:
             continue
-        c = tm.operand(t["discr"])
-        if c[0] != "bin" or c[1] not in ("Le", "Lt", "Ge", "Gt"):
-            continue
+        ctm = terms_of(db, cdef, _TERMS)
+        for bb in cb["blocks"]:
+            for s_ in bb["s"]:
+                rv = s_.get("rv", {})
+                if rv.get("k") == "BinaryOp" and rv.get("op") in ("Le", "Lt", "Ge", "Gt"):
+                    comps.append(("bin", rv["op"], ctm.operand(rv["a"]), ctm.operand(rv["b"])))
+    for c in comps:
 
         def cls(x):
             x = strip_overflow(x)
@@ -362,6 +397,7 @@ def r1(db, rep, r3ok):
     r = rep.rule("R1", "K8", "no undischarged panic site is reachable from get8 / get / get32 / set32 / permissions / "
                  "set_memory")
     entries = ["%s::%s" % (M, f) for f in ("get8", "get", "get32", "set32", "permissions", "set_memory")]
+    locs = locators(db)
 
     def discharge(db_, body, tm, s):
         t = s["extra"]
@@ -389,18 +425,18 @@ def r1(db, rep, r3ok):
                             if recv[0] == "call" and "BTreeMap" in recv[1] and last_seg(recv[1]) in ("get", "get_mut"):
                                 key = recv[2][1]
                                 src = {last_seg(c[1]) for c in calls_in(key)}
-                                if src & {"section_address", "section_address_offset"}:
+                                if {c[1] for c in calls_in(key)} & locs:
                                     return "fallback of a lookup whose key was returned by section_address() for the same map"
                             if recv[0] == "call" and last_seg(recv[1]) == "get" and "slice" in recv[1]:
                                 off = recv[2][1]
-                                if any(last_seg(c[1]) == "section_address_offset" for c in calls_in(off)):
+                                if any(c[1] in locs for c in calls_in(off)):
                                     return ("fallback of data.get(offset) with offset = address - section start < "
                                             "section length (section_address() checked containment)")
         if s["kind"] == "unwrap" and ot is not None and "BTreeMap" in ot[1] and last_seg(ot[1]) in ("get", "get_mut"):
             key = ot[2][1] if len(ot[2]) > 1 else None
             if key is not None:
                 src = {last_seg(c[1]) for c in calls_in(key)}
-                if src & {"section_address", "section_address_offset"}:
+                if {c[1] for c in calls_in(key)} & locs:
                     return "key was returned by section_address() for the same map"
                 if any(x[0] in ("carg",) for x in subterms(key)) or any(x[0] == "field" for x in subterms(key)):
                     pass
